@@ -33,6 +33,9 @@ def lambda_wrap(
         if isinstance(branch[0], vyxal.structure.GenericStatement):
             if branch[0].branches[0][0].name in NILADIC_TYPES:
                 return vyxal.structure.Lambda(0, branch)
+            if branch[0].branches[0][0].name == TokenType.VARIABLE_SET:
+                # takes one value, whatever the variable is called
+                return vyxal.structure.Lambda(1, branch)
             return vyxal.structure.Lambda(
                 elements.get(branch[0].branches[0][0].value, ("", 1))[1],
                 branch,
